@@ -190,6 +190,12 @@ class C02(C01):
         "HappyModel.C01.hook_clauses_silent_on_program",
         "HappyModel.C01.process_trace_satisfies_c02_spec",
         "HappyModel.C01.program_trace_satisfies_c02_spec",
+        "HappyModel.C01.future_before_resolved_silent_on_model_plain",
+        "HappyModel.C01.future_before_resolved_silent_on_program_plain",
+        "HappyModel.C01.future_clauses_silent_on_model_plain",
+        "HappyModel.C01.future_clauses_silent_on_program_plain",
+        "HappyModel.C01.plain_full_trace_satisfies_c02_spec",
+        "HappyModel.C01.plain_program_full_trace_satisfies_c02_spec",
         "HappyModel.C01.delivered_sorted",
         "HappyModel.C01.at_most_once",
         "HappyModel.C01.pop_verdict",
@@ -203,11 +209,26 @@ class C02(C01):
             "proved silent on the lines the model itself writes (`delayView`: R / y / w lines; `hookView`: S / K / F / h / H lines with "
             "creation index + 1 as event tag and the h lines in action order; both built along `run`), for every handler table, plain "
             "initial state, end time and number of iterations; the delay and wait monitors provably read no other line (`*_filter`). "
-            "Each of these signatures is raised by its monitor only (the remaining fold of the judge no longer checks them). Not "
-            "linked: the clauses that need the judge's declarative resolution of futures (`settle`: future/resumed-before-resolved, "
-            "resumed-with-wrong-value, resumed-at-wrong-instant, value-raised-instead-of-sent, resolved-but-never-resumed); the "
-            "combined trace `c02TraceOf` (R / S / K / h / F / H / c / y / w lines interleaved as written) is accepted by the three "
+            "Each of these signatures is raised by its monitor only (the remaining fold of the judge no longer checks them). "
+            "The combined trace `c02TraceOf` (R / S / K / h / F / H / c / y / w lines interleaved as written) is accepted by the three "
             "monitors (`process_trace_satisfies_c02_spec`); it does not carry the n / a / l / r lines of the future layer",
+        "HappyModel.C01.future_clauses_silent_on_model_plain":
+            "the settle fold of the judge (`Spec.stepLine` over the numbered lines; the only errors it raises are "
+            "future/resumed-before-resolved, value-raised-instead-of-sent, resumed-with-wrong-value, resumed-at-wrong-instant) is "
+            "proved to end with err = none on the future layer of the model's own trace (`FV.futTrace`: the S / K / R line that opens "
+            "each delivery and sets the judge's clock, the r lines in action order, the w line of the terminator, ghosted along `run` "
+            "with their positions) for PLAIN futures only: programs whose segments contain no fresh / any_of / all_of action (`settle` "
+            "is then the identity, a slot is never rebound, futures have no settle callbacks) and whose resolved values do not print "
+            "as `raised:…` (a decidable condition on the handler table, `FV.PlainSegV`; the String lemma 'Val.show never starts with "
+            "raised:' is not proved in general). `future_before_resolved_silent_on_*_plain` is the first clause alone on the R / r / w "
+            "view without the value condition. NOT linked: (1) the same four clauses for any_of / all_of composites (needs the "
+            "callback cascade of `resolveFut` = the fixpoint `settle` computes, incl. the clipped positions and the (index, value) "
+            "tie-break of any_of) and for rebinding (`fresh`); (2) the end-of-trace clause future/resolved-but-never-resumed (needs "
+            "a finished-run / horizon argument plus the no-displacement discipline: a second process parking on a future displaces "
+            "the first in the model; a continuation that is cancelled, stale or crash-gated is dropped without an R line). "
+            "`plain_full_trace_satisfies_c02_spec` puts it together on ONE trace (`c02FullTraceOf` = `c02TraceOf` plus the r lines "
+            "where the resolve actions happen, between the h lines): hook monitor, delay monitor, wait monitor and the settle fold "
+            "all accept it for plain futures, so Spec.judgeLines can only answer with its last clause there",
         "HappyModel.C01.one_pending_continuation":
             "the invariant is 'at most one pending resumption per process', not 'exactly one': the model (like the "
             "harness) lets a second process park on a future that already has one and lets a slot be rebound, where "
@@ -236,7 +257,10 @@ class C02(C01):
     assumptions = C01.assumptions + [
         "the inputs of a generated any_of never share a plain future, so one resolve() call settles at most one of them; "
         "which input counts as 'first' inside a single callback cascade is not fixed by the property text and is not judged"]
-    hypotheses = []
+    hypotheses = ["future_clauses_silent_on_model_plain / future_before_resolved_silent_on_model_plain: plain futures only "
+                  "(no fresh / any_of / all_of action in any segment of the handler table; resolved values do not print as "
+                  "`raised:…`), initial state with plain pending events, no process and no future yet (InitOk, futs = []); "
+                  "the statement is about the S / K / R / r / w lines of the model's run with their own numbering"]
 
     def generate(self, rng, i, tier):
         prog = gen_future_program(rng)
